@@ -28,10 +28,10 @@ func init() {
 			{Name: "concurrent-api", Fn: scnC18Concurrent, Weight: 3, Group: c18Group},
 			{Name: "wait-for-ready", Fn: scnC18Wait, Weight: 1},
 		},
-		Rule: "concurrent-api: 2-3 simulated tasks issue AddReadiness / OnReady / IsReady (the poll behind WaitForReady) / status requests (GET, every fourth one HEAD, served by ReadyzHandler into a response recorder; a HEAD probe is judged by its status code) over 1-3 component names incl. re-registration, <=12 operations, " +
+		Rule: "concurrent-api: 2-3 simulated tasks issue AddReadiness / OnReady / IsReady (the poll behind WaitForReady) / status requests (GET, every fourth one HEAD, some POST, served by ReadyzHandler into a response recorder; a HEAD probe is judged by its status code) over 1-3 component names (in a sixth of the runs more than 4 KB long) incl. re-registration, <=12 operations, " +
 			"interleaved at lock granularity (baseline, single-preemption sweep, PCT, random); every response must be internally consistent and the recorded invoke/return history must be linearizable " +
-			"against a map model (porcupine); wait-for-ready: registrations and ready-marks separated by fake-clock advances, one to three waiters each with its own context (started and cancelled at taped steps); WaitForReady may complete only at an instant at which the model is ready, " +
-			"yields its own context's error (and only then an error) when cancelled first, and does complete once everything has been ready for three polling intervals; " +
+			"against a map model (porcupine); wait-for-ready: registrations and ready-marks separated by fake-clock advances (0.1-1.2 s, in a sixth of the steps 6 min or 1 h), one to three waiters each with its own context (started and cancelled at taped steps); WaitForReady may complete only at an instant at which the model is ready, " +
+			"yields its own context's error (and only then an error) when cancelled first (success after a cancellation is accepted only if everything was ready within one polling interval of it), and does complete once everything has been ready for three polling intervals; " +
 			"non-trivial = at least one preemption and one status request overlapping another task's update (concurrent) / a not-ready phase before completion (wait); distinct = distinct (program hash, schedule hash)",
 		Quick: 80 * c18Group, Thorough: 4000 * c18Group,
 		Race: true, RaceQuick: 4 * c18Group, RaceThorough: 200 * c18Group,
@@ -49,6 +49,9 @@ func (o c18Op) String() string {
 	}
 	if o.Kind == "head" {
 		return "HEAD /readyz"
+	}
+	if o.Kind == "post" {
+		return "POST /readyz"
 	}
 	if o.Kind == "isready" {
 		return "IsReady()"
@@ -185,6 +188,13 @@ func doStatus(h *health.Health, method string) c18Out {
 func scnC18Concurrent(rc *RunCtx) {
 	t := rc.Spec
 	names := []string{"named-pipe-processor", "auditd-processor", "x"}[:1+t.Choose(3, "nnames")]
+	if t.Choose(6, "name.long") == 5 {
+		// long component names: the status document no longer fits any small buffer
+		for i := range names {
+			names[i] += "-" + strings.Repeat("x", 4200+400*i)
+		}
+		rc.Sim.Count("c18.long_names")
+	}
 	if t.Choose(5, "name.overall") == 0 {
 		// a component may be called like the key that carries the overall verdict
 		names[len(names)-1] = health.OverallReady
@@ -232,6 +242,8 @@ func scnC18Concurrent(rc *RunCtx) {
 				// every fourth status request is a HEAD probe, as load balancers send
 				if total%4 == 3 {
 					ops = append(ops, c18Op{"head", ""})
+				} else if total%7 == 5 {
+					ops = append(ops, c18Op{"post", ""}) // any other method is answered like GET
 				} else {
 					ops = append(ops, c18Op{"get", ""})
 				}
@@ -276,6 +288,8 @@ func scnC18Concurrent(rc *RunCtx) {
 			}
 		case "head":
 			out = doStatus(h, http.MethodHead)
+		case "post":
+			out = doStatus(h, http.MethodPost)
 		default:
 			out = doStatus(h, http.MethodGet)
 		}
@@ -311,7 +325,7 @@ func scnC18Concurrent(rc *RunCtx) {
 	var ops []porcupine.Operation
 	for _, r := range lg.recs {
 		ops = append(ops, porcupine.Operation{ClientId: r.Client % 50, Input: r.Op, Call: r.Call, Output: r.Out, Return: r.Ret})
-		if r.Op.Kind != "get" && r.Op.Kind != "head" {
+		if r.Op.Kind != "get" && r.Op.Kind != "head" && r.Op.Kind != "post" {
 			continue
 		}
 		for _, o := range lg.recs {
@@ -487,9 +501,15 @@ func scnC18Wait(rc *RunCtx) {
 		}
 		from := rc.SimNow()
 		d := time.Duration(100*(1+t.Choose(12, "advance"))) * time.Millisecond
+		tick := 100 * time.Millisecond
+		if long := t.Choose(12, "advance.long"); long >= 10 {
+			// a component that takes minutes (or an hour) to come up: hundreds of polls in one phase
+			d, tick = []time.Duration{6 * time.Minute, time.Hour}[long-10], 500*time.Millisecond
+			rc.Sim.Count("c18.long_phase")
+		}
 		desc = append(desc, fmt.Sprintf("advance(%v)", d))
-		for el := time.Duration(0); el < d && !allDone(); el += 100 * time.Millisecond {
-			time.Sleep(100 * time.Millisecond)
+		for el := time.Duration(0); el < d && !allDone(); el += tick {
+			time.Sleep(tick)
 			rc.Sim.RunUntil(allDone, 5000)
 			note()
 		}
@@ -543,17 +563,18 @@ func scnC18Wait(rc *RunCtx) {
 			continue
 		}
 		// completed without error although its context had been cancelled before: legitimate only if
-		// a readiness poll was due between the cancellation and the completion (both were ready
-		// then); otherwise the cancellation came first and its error is what the waiter must get
-		if w.cancelled && w.origin.set0 && w.doneAt > w.cancelledAt {
-			pollDue := false
-			for k := time.Duration(1); w.origin.at+k*interval <= w.doneAt; k++ {
-				if at := w.origin.at + k*interval; at > w.cancelledAt-100*time.Millisecond {
-					pollDue = true
+		// everything was ready at the cancellation or became ready within one polling interval of it
+		// (a waiter that finds both may report either); a waiter that outlives its cancellation by
+		// more than that and then reports success ignored the cancellation
+		if w.cancelled && w.doneAt >= w.cancelledAt {
+			readySoon := false
+			for _, p := range phases {
+				if p.ready && p.to >= w.cancelledAt && p.from <= w.cancelledAt+interval && p.from <= w.doneAt {
+					readySoon = true
 				}
 			}
-			if !pollDue {
-				rc.Fail("C18", "cancelled-wait-completed-without-error", "%s: its context was cancelled at %v, no readiness poll was due until it completed at %v, yet WaitForReady completed without the context's error (steps: %v)", w.name, w.cancelledAt, w.doneAt, desc)
+			if !readySoon {
+				rc.Fail("C18", "cancelled-wait-completed-without-error", "%s: its context was cancelled at %v while a component was not ready, none became ready within %v of that, yet WaitForReady completed at %v without the context's error (steps: %v)", w.name, w.cancelledAt, interval, w.doneAt, desc)
 				return
 			}
 		}
